@@ -131,12 +131,14 @@ def step (st : S) (toks : List String) : S × String :=
       if n == want then (st, "true") else (st, s!"false want leftover={want}")
     | none => (st, "bad-op")
   | "oracle" :: "unique" :: rest =>
-    -- file names are unique per execution: 5 distinct names per execution, none shared
-    match (kv? "names" rest).bind String.toNat?, (kv? "distinct" rest).bind String.toNat? with
-    | some n, some d =>
-      if n == 5 * st.execs.length && d == n then (st, "true")
-      else (st, s!"false want names=distinct={5 * st.execs.length}")
-    | _, _ => (st, "bad-op")
+    -- file names are unique per execution: the interned path names handed to the hooks (five per
+    -- execution, in execution order) are pairwise different
+    match (kv? "ids" rest).bind natList? with
+    | some ids =>
+      if ids.length != 5 * st.execs.length then (st, s!"false want {5 * st.execs.length} names")
+      else if ids.eraseDups.length != ids.length then (st, "false a file name is used twice")
+      else (st, "true")
+    | none => (st, "bad-op")
   | _ => (st, "bad-op")
 
 def suite : Suite S := { init := {}, step := step }
